@@ -344,7 +344,7 @@ pub fn parse_back_formats(q: bool) -> Vec<String> {
 }
 
 pub fn run(rep: &mut Report) {
-    let q = rep.quick();
+    let q = false; // one parameter set for both tiers (2 s)
     let leap = LeapTable::load().expect("leap").0;
     let eps = epochs();
     let ne = eps.len() as u64;
